@@ -487,7 +487,10 @@ class Optic:
             'solves': self.solves.to_dict()
         }
 
-        data['wavelengths']['polarization'] = self.polarization
+        if isinstance(self.polarization, PolarizationState):
+            data['wavelengths']['polarization'] = self.polarization.to_dict()
+        else:
+            data['wavelengths']['polarization'] = self.polarization
         data['fields']['field_type'] = self.field_type
         data['fields']['object_space_telecentric'] = self.obj_space_telecentric
         return data
@@ -512,6 +515,9 @@ class Optic:
         optic.solves = SolveManager.from_dict(optic, data['solves'])
 
         optic.polarization = data['wavelengths']['polarization']
+        if isinstance(optic.polarization, dict):
+            optic.polarization = \
+                PolarizationState.from_dict(optic.polarization)
         optic.field_type = data['fields']['field_type']
         optic.obj_space_telecentric = \
             data['fields']['object_space_telecentric']
